@@ -77,9 +77,20 @@ class GradedPoly:
         dy = [Fraction(int(k), 4) for k in rng.integers(-4, 5, size=self.dim)]
         self.y0 = dy
         self.t0 = Fraction(int(rng.integers(-6, 7)), 4)
-        self.terms = []
-        for i in range(self.dim):
-            self.terms.append(self._make_terms(i, rng, linear, autonomous))
+        for _attempt in range(20):
+            self.terms = []
+            for i in range(self.dim):
+                self.terms.append(self._merge(self._make_terms(i, rng, linear, autonomous)))
+            self._polys = None
+            if self.has_top_weight():     # the solution really has a t^grade term (random coefficients may cancel)
+                break
+
+    @staticmethod
+    def _merge(terms):
+        acc = {}
+        for (c, pt, vs) in terms:
+            acc[(pt, vs)] = acc.get((pt, vs), 0) + c
+        return [(c, pt, vs) for (pt, vs), c in acc.items() if c != 0] or [(Fraction(0), 0, ())]
 
     def _coef(self, rng):
         k = int(rng.integers(1, 9)) * (1 if rng.random() < 0.5 else -1)
